@@ -718,9 +718,12 @@ class Ev:
         x = self.deref_auto(self.ev(args[0]))
         k = self.types.kind(x.t)
         if k == 'slice':
-            return mathint(x.lv[('l',)])
+            l = x.lv[('l',)]
+            # under a binder the value is read without its type facts: lengths are never negative
+            return mathint(z3.If(l < 0, z3.IntVal(0), l) if self.quant else l)
         if k == 'string':
-            return mathint(x.lv[('n',)])
+            l = x.lv[('n',)]
+            return mathint(z3.If(l < 0, z3.IntVal(0), l) if self.quant else l)
         if k == 'array':
             return mathint(self.types.desc(x.t)['len'])
         if k == 'map':
@@ -790,6 +793,15 @@ class Ev:
         if a.t == MATHINT or b.t == MATHINT:
             return mathint(z3.If(c, self.as_int(a), self.as_int(b)))
         return V.ite_val(c, a, b)
+
+    def fn_ncalls(self, args):
+        """ncalls(name): how many calls whose callee name contains `name` the function under
+        contract has made so far (in its own body, not in callees)"""
+        if len(args) != 1 or args[0][0] != 'id':
+            raise SpecError('ncalls(<identifier>)')
+        pat = args[0][1]
+        self.cx.call_patterns.add(pat)
+        return mathint(self.st.ghost.get('calls:' + pat, z3.IntVal(0)))
 
     def fn_has(self, args):
         m = self.deref_auto(self.ev(args[0]))
